@@ -129,6 +129,12 @@ func init() {
 	symAPI["Implies"] = func(fr *frame, args []value) value {
 		return fr.i.mkBool(fr.i.tt.Or(fr.i.tt.Not(fr.i.term(args[0])), fr.i.term(args[1])))
 	}
+	symAPI["Budget"] = func(fr *frame, args []value) value {
+		// instruction budget for the rest of the path (the harness derives it
+		// from its input size: an unwinding assertion)
+		fr.i.budget = fr.i.steps + asInt64(args[0])
+		return nil
+	}
 	symAPI["Thorough"] = func(fr *frame, args []value) value { return fr.i.run.cfg.Thorough }
 	symAPI["Symbolic"] = func(fr *frame, args []value) value { return true }
 	symAPI["MapOrder"] = func(fr *frame, args []value) value {
